@@ -19,7 +19,7 @@ func init() {
 	Register(&Prop{
 		ID:    "C12",
 		Title: "Payment gauges stream linearly and never release more than the pro-rata deposit",
-		Cases: func(t string) int { return tierN(t, 140, 2600) },
+		Cases: func(t string) int { return tierN(t, 140, 20000) },
 		Run:   runC12,
 		Rule: "case = one history creating 1-6 gauges (plan purchases and pay-once posts; amounts 1..1e15 via size, duration and price feed; durations 1 day..3 years; optionally 2-4 purchases with identical parameters in one block; 7% of the histories keep 101-140 gauges alive at once) followed by 20-45 blocks whose time steps are drawn from {0, 1us, 0.5s, 1s, 6s, 1h, 1d, 10d, 45d, 200d} with reward interval 2-5; " +
 			"oracle per gauge per BeginBlock from balance snapshots (cross-checked with the transfer event log): nothing moves in non-reward blocks or outside [start,end]; inside, cumulative release == floor(deposited*(t-start)us/(end-start)us) +-1 per denom, non-decreasing, <= deposited (deposited = everything that entered the escrow account); " +
